@@ -561,7 +561,7 @@ static int sbdf_skip_objects(FILE* f, sbdf_valuetype v, int c, int packed_array)
 				return SBDF_ERROR_INVALID_SIZE;
 			}
 
-			if (fseek(f, skip, SEEK_CUR))
+			if (sbdf_skip_bytes(f, skip))
 			{
 				return SBDF_ERROR_IO;
 			}
@@ -580,7 +580,7 @@ static int sbdf_skip_objects(FILE* f, sbdf_valuetype v, int c, int packed_array)
 					return SBDF_ERROR_INVALID_SIZE;
 				}
 
-				if (fseek(f, skip, SEEK_CUR))
+				if (sbdf_skip_bytes(f, skip))
 				{
 					return SBDF_ERROR_IO;
 				}
@@ -602,7 +602,7 @@ static int sbdf_skip_objects(FILE* f, sbdf_valuetype v, int c, int packed_array)
 		{
 			return SBDF_ERROR_INVALID_SIZE;
 		}
-		if (fseek(f, c * sz, SEEK_CUR))
+		if (sbdf_skip_bytes(f, c * sz))
 		{
 			return SBDF_ERROR_IO;
 		}
